@@ -818,6 +818,10 @@ def open_path(path: str, mode: str, clobber: bool = True) -> IO:
                 cctx = zstd.ZstdCompressor()
                 fp = cctx.stream_writer(open(path, "wb"))
 
+    # the (de)compressors work on bytes, wrap them if a text file is asked for
+    if fp and not binary:
+        fp = io.TextIOWrapper(fp)
+
     # normal file or stdio for reading or writing
     if not fp:
         if is_stdio:
